@@ -159,7 +159,7 @@ func genSymView(r *Rng, tag string, names []string, n int) []*MNode {
 }
 
 func genC14(g *Gen) {
-	n := g.Vol(400, 12000)
+	n := g.Vol(1500, 25000)
 	names := []string{"a", "b", "c", "d", "f", "loop", "l"}
 	outsideView := func(r *Rng) []*MNode {
 		mk := func(name string, content string) *MNode {
